@@ -70,7 +70,7 @@ def compare(drv, cls, obj, ds, mf, markers, stats):
                 stats[op + ".merged_or_cut"] = stats.get(op + ".merged_or_cut", 0) + 1
             if model != impl:
                 diff(f, op, req, res, impl)
-        elif f in ds["ordinal"] and (cls == "OrdinalDiscretizer" or (cls in ("QualitativeDiscretizer", "Discretizer") and not markers)):
+        elif f in ds["ordinal"] and (cls == "OrdinalDiscretizer" or (cls in ("QualitativeDiscretizer", "Discretizer") and "str_nan" not in markers)):
             if not all_str(X[f]):
                 continue
             order = {"lst": [core.canon(v) for v in ds["values_orders"][f]],
@@ -83,7 +83,7 @@ def compare(drv, cls, obj, ds, mf, markers, stats):
             if res.get("ok") != impl:
                 diff(f, "pipe.ordinal", req, res, impl)
         elif f in ds["qualitative"] and f not in ds["ordinal"] and (
-                cls == "CategoricalDiscretizer" or (cls in ("QualitativeDiscretizer", "Discretizer") and not markers)):
+                cls == "CategoricalDiscretizer" or (cls in ("QualitativeDiscretizer", "Discretizer") and "str_nan" not in markers)):
             if not all_str(X[f]):
                 continue
             prov = ds["values_orders"].get(f)
